@@ -8,6 +8,7 @@ import (
 	"fmt"
 	"os"
 	"path/filepath"
+	"regexp"
 	"sort"
 	"strings"
 	"time"
@@ -375,12 +376,21 @@ func (rp *Report) Explore(it *Item) {
 	}
 }
 
+// addresses and goroutine numbers inside failure texts (stack traces carried by recovered panics) differ from run to
+// run; two failures are the same observation if they agree after those are masked
+var volatileText = regexp.MustCompile(`0x[0-9a-fA-F]+\??|goroutine \d+|\+0x[0-9a-f]+`)
+
+func sameFailure(a, b Failure) bool {
+	return a.Clause == b.Clause && a.Signature == b.Signature &&
+		volatileText.ReplaceAllString(a.Msg, "#") == volatileText.ReplaceAllString(b.Msg, "#")
+}
+
 func sameFailures(a, b []Failure) bool {
 	if len(a) != len(b) {
 		return false
 	}
 	for i := range a {
-		if a[i] != b[i] {
+		if !sameFailure(a[i], b[i]) {
 			return false
 		}
 	}
@@ -414,7 +424,7 @@ func (rp *Report) confirm(it *Item, x *Exec, res *rt.Result, choices []int, boun
 			for _, f := range x.failures {
 				found := false
 				for _, g := range full {
-					if f == g {
+					if sameFailure(f, g) {
 						found = true
 					}
 				}
